@@ -24,7 +24,7 @@ use crate::{
     error::Details,
     schema::{DecimalSchema, EnumSchema, FixedSchema, Name, RecordSchema, ResolvedSchema, Schema},
     types::Value,
-    util::{safe_collection_len, safe_len, zag_i32, zag_i64},
+    util::{safe_collection_len, safe_hashmap_len, safe_len, zag_i32, zag_i64},
 };
 use std::{
     borrow::Borrow,
@@ -259,14 +259,13 @@ pub(crate) fn decode_internal<R: Read, S: Borrow<Schema>>(
                     break;
                 }
 
-                // Check that the HashMap won't grow past the max allocation size. This is less
-                // precise than the Vec check above as HashMap allocates in buckets and doesn't have
-                // a reserve_exact
+                // Check that the HashMap won't grow past the max allocation size. HashMap allocates
+                // in buckets and doesn't have a reserve_exact, so the check has to account for that
                 let total = items
                     .len()
                     .checked_add(len)
                     .ok_or(Details::IntegerOverflow)?;
-                safe_collection_len::<(String, Value)>(total)?;
+                safe_hashmap_len::<(String, Value)>(total)?;
 
                 items.reserve(len);
                 for _ in 0..len {
